@@ -16,6 +16,12 @@ impl PartialEqSpecImpl for TyID { open spec fn obeys_eq_spec() -> bool { true } 
 //@ type sylt-parser/src/parser.rs enum VarKind keep=Copy clone=keep eq=keep
 //@ type sylt-parser/src/parser.rs struct Identifier keep=- clone=ext
 //@ type sylt-parser/src/parser.rs struct TypeConstraint eq=none
+impl Span {
+//@ fn sylt-tokenizer/src/tokenizer.rs zero
+//@   in Span
+//@   props C07
+//@ end
+}
 impl VarKind {
 //@ fn sylt-parser/src/parser.rs immutable
 //@   in VarKind
